@@ -24,12 +24,12 @@ Base == [
   enums    |-> << [name |-> "E1", vals |-> << [name |-> "A", v |-> 1], [name |-> "B", v |-> 2] >> ] >>,
   structs  |-> << [kind |-> "struct", name |-> "S1",
                    fields |-> << F(1, "default", B("i32"), "a"), F(2, "optional", B("string"), "b"),
-                                 F(3, "required", R("E1"), "e"), F(4, "default", M(B("string"), L(R("MyInt2"))), "m"),
-                                 F(5, "default", R("MyList"), "l") >> ],
+                                 F(4, "required", R("E1"), "e"), F(6, "default", M(B("string"), L(R("MyInt2"))), "m"),
+                                 F(8, "default", R("MyList"), "l") >> ],
                   [kind |-> "union", name |-> "U1", fields |-> << F(1, "optional", B("i32"), "x"), F(2, "optional", B("string"), "y") >> ],
                   [kind |-> "exception", name |-> "Ex1", fields |-> << F(1, "default", B("string"), "msg") >> ] >>,
   services |-> << [name |-> "Svc", extends |-> "Base0",
-                   methods |-> << [name |-> "f1", oneway |-> FALSE, ret |-> <<B("i32")>>, args |-> << F(1, "default", R("MyInt2"), "a") >>, throws |-> << F(1, "optional", R("Ex1"), "e1") >> ],
+                   methods |-> << [name |-> "f1", oneway |-> FALSE, ret |-> <<B("i32")>>, args |-> << F(1, "default", R("MyInt2"), "a"), F(5, "default", B("string"), "s5") >>, throws |-> << F(1, "optional", R("Ex1"), "e1") >> ],
                                   [name |-> "f2", oneway |-> FALSE, ret |-> <<>>, args |-> <<>>, throws |-> << F(1, "optional", R("Ex1"), "e1") >> ],
                                   [name |-> "f3", oneway |-> TRUE, ret |-> <<>>, args |-> << F(1, "default", B("string"), "s") >>, throws |-> <<>> ] >> ] >>,
   scopes   |-> << [name |-> "Sc", prefix |-> << "foo", "{usr}", "bar" >>, ops |-> << [name |-> "Op1", t |-> R("S1")], [name |-> "Op2", t |-> R("MyInt2")] >> ] >>
@@ -99,9 +99,10 @@ Edits(p) ==
        \/ \E r \in {"required", "optional", "default"} : p.structs[si].kind # "union" /\ Edit(p, SetField(p, si, fi, [p.structs[si].fields[fi] EXCEPT !.req = r]), "req-field")
        \/ Edit(p, [p EXCEPT !.structs[si].fields = SeqRemove(@, fi)], "remove-field")
        \/ Edit(p, SetField(p, si, fi, [p.structs[si].fields[fi] EXCEPT !.name = "renamed"]), "rename-field")
-  \/ \E si \in Idx(p.structs), r \in {"required", "optional"} :
-       FieldById(p.structs[si].fields, 9) = 0 /\ (p.structs[si].kind = "union" => r = "optional") /\
-       Edit(p, [p EXCEPT !.structs[si].fields = Append(@, F(9, r, B("i32"), "z"))], "add-field")
+  \/ \E si \in Idx(p.structs), r \in {"required", "optional", "default"}, id \in {3, 9} :
+       FieldById(p.structs[si].fields, id) = 0 /\ (p.structs[si].kind = "union" => r = "optional") /\
+       Edit(p, [p EXCEPT !.structs[si].fields = Append(@, F(id, r, B("i32"), IF id = 9 THEN "z" ELSE "mid"))],
+            IF id = 9 THEN "add-field" ELSE "add-field-in-the-middle")
   \/ \E si \in Idx(p.structs) : Edit(p, [p EXCEPT !.structs = SeqRemove(@, si)], "remove-struct")
   \/ \E ei \in Idx(p.enums) : ~(\E vi \in Idx(p.enums[ei].vals) : p.enums[ei].vals[vi].v = 9) /\
        Edit(p, [p EXCEPT !.enums[ei].vals = Append(@, [name |-> "NEWV", v |-> 9])], "add-enum-value")
@@ -122,6 +123,12 @@ Edits(p) ==
        \/ Edit(p, [p EXCEPT !.services[vi].methods[mi].throws = Append(@, F(7, "optional", R("Ex1"), "e7"))], "add-throw")
        \/ \E ai \in Idx(p.services[vi].methods[mi].args) : \E t \in Types :
             Edit(p, [p EXCEPT !.services[vi].methods[mi].args[ai].t = t], "retype-arg")
+       \/ \E id \in {3, 9}, r \in {"required", "default"} :
+            FieldById(p.services[vi].methods[mi].args, id) = 0 /\
+            Edit(p, [p EXCEPT !.services[vi].methods[mi].args = Append(@, F(id, r, B("i32"), IF id = 9 THEN "z" ELSE "mid"))],
+                 IF id = 9 THEN "add-arg" ELSE "add-arg-in-the-middle")
+       \/ \E ai \in Idx(p.services[vi].methods[mi].args) :
+            Edit(p, [p EXCEPT !.services[vi].methods[mi].args = SeqRemove(@, ai)], "remove-arg")
   \/ \E vi \in Idx(p.services), e \in {"", "Other"} : Edit(p, [p EXCEPT !.services[vi].extends = e], "change-extends")
   \/ \E ci \in Idx(p.scopes) :
        \/ \E pre \in {<<"foo", "{vvv}", "bar">>, <<"foo", "{usr}", "baz">>, <<"foo", "{usr}">>, <<>>, <<"foo", "{usr}", "{extra}", "bar">>} :
